@@ -124,6 +124,7 @@ type FnGen struct {
 	frameN, callN int
 	closures map[*ssa.MakeClosure][]capturedVar
 	boundCallees map[string]bool
+	selectN      int
 }
 
 type coverPoint struct {
@@ -493,7 +494,7 @@ func (g *FnGen) panicIf(s *State, cond, what string) {
 	if cond == "false" {
 		return
 	}
-	if g.fc != nil && g.fc.NoPanic {
+	if g.fc != nil && g.fc.NoPanic && !g.fc.NoPanicExplicitOnly {
 		g.addObl(s, "nopanic", fmt.Sprintf("nopanic[%s#%d]", what, g.seqN), what, g.posOf(), not(cond))
 	}
 	g.assume(s, not(cond))
@@ -906,10 +907,28 @@ func (g *FnGen) scanEffects(ins ssa.Instruction, assigned map[*ssa.Alloc]bool, h
 		} else {
 			assigned[x] = true
 		}
-	case *ssa.MakeSlice, *ssa.MakeMap, *ssa.MakeChan, *ssa.MakeClosure, *ssa.MakeInterface:
+	case *ssa.MakeSlice, *ssa.MakeMap, *ssa.MakeClosure, *ssa.MakeInterface:
 		*allocs = true
 		if ms, ok := x.(*ssa.MakeSlice); ok {
 			g.cellSorts(ms.Type().Underlying().(*types.Slice).Elem(), heapSorts)
+		}
+	case *ssa.UnOp:
+		if x.Op == token.ARROW && g.hasChanProtocol() {
+			ghosts["ChanPending"], ghosts["InFlight"] = true, true
+		}
+	case *ssa.Select:
+		if g.hasChanProtocol() {
+			ghosts["ChanPending"], ghosts["InFlight"] = true, true
+		}
+		if g.fc != nil {
+			for _, sg := range g.fc.SelectGhost {
+				ghosts[sg.Ghost] = true
+			}
+		}
+	case *ssa.MakeChan:
+		*allocs = true
+		if g.hasChanProtocol() {
+			ghosts["ChanKind"] = true
 		}
 	case *ssa.MapUpdate:
 		mt := x.Map.Type().Underlying().(*types.Map)
